@@ -24,15 +24,16 @@ func init() { registry.Register("C17", run, replay) }
 type tierCfg struct {
 	depth         int
 	bound         int
+	jobDepth      int           // how deep the schedule tree is split into worker jobs
 	interDeadline time.Duration // per worker, interleaving part
 	histDeadline  time.Duration // history part (checked between levels)
 }
 
 func cfgFor(tier string) tierCfg {
 	if tier == "thorough" {
-		return tierCfg{depth: 7, bound: 3, interDeadline: 9 * time.Minute, histDeadline: 11 * time.Minute}
+		return tierCfg{depth: 7, bound: 3, jobDepth: 2, interDeadline: 9 * time.Minute, histDeadline: 12 * time.Minute}
 	}
-	return tierCfg{depth: 5, bound: 2, interDeadline: 70 * time.Second, histDeadline: 90 * time.Second}
+	return tierCfg{depth: 5, bound: 2, jobDepth: 1, interDeadline: 70 * time.Second, histDeadline: 90 * time.Second}
 }
 
 func envInt(name string, def int) int {
@@ -74,7 +75,7 @@ func runWorker(tier string, cfg tierCfg, idx, n int) int {
 	switch os.Getenv(modeEnv) {
 	case "inter":
 		pgs := programs(tier)
-		jobs, err := interJobs(pgs, cfg.bound)
+		jobs, err := interJobs(pgs, cfg.bound, cfg.jobDepth)
 		if err != nil {
 			engine.Emit(interStats{Program: "?", Err: err.Error()})
 			engine.FlushEmit()
@@ -296,6 +297,10 @@ func run(tier string) int {
 
 	// ---------------- part (i): histories – level-synchronous BFS, levels expanded by the worker pool
 	hcfgs := histConfigs(tier)
+	// the history part gets what the interleaving part left of the tier's total budget
+	if left := cfg.histDeadline + cfg.interDeadline - time.Since(start); left > cfg.histDeadline {
+		cfg.histDeadline = left
+	}
 	budget := engine.NewBudget(cfg.histDeadline)
 	scratch, err := os.MkdirTemp("/var/tmp", "verif-c17-")
 	if err != nil {
